@@ -2,7 +2,11 @@
 
 package tree
 
-import "reflect"
+import (
+	"reflect"
+
+	"github.com/bradenaw/juniper/iterator"
+)
 
 // VerifNode is a pointer-free description of one B-tree node for verification harnesses.
 type VerifNode[K any] struct {
@@ -78,3 +82,54 @@ func (m Map[K, V]) VerifShape() VerifTree[K] { return verifShape(m.t) }
 
 // VerifShape returns a read-only copy of the set's node structure.
 func (s Set[T]) VerifShape() VerifTree[T] { return verifShape(s.t) }
+
+// VerifCursor is a pointer-free description of where an iterator is parked.
+type VerifCursor[K any] struct {
+	// Node is the pre-order index (as in VerifTree.Nodes) of the node the cursor is in, -1 if the cursor
+	// has run off the edge, -2 if the node is not part of the tree any more.
+	Node int `json:"node"`
+	// I is the cursor's index into that node and K the key it remembers.
+	I int `json:"i"`
+	K K   `json:"k"`
+	// Current reports that the cursor has seen the tree's latest generation.
+	Current bool `json:"current"`
+}
+
+func verifCursorOf[K any, V any](t *btree[K, V], c *cursor[K, V]) VerifCursor[K] {
+	out := VerifCursor[K]{Node: -1, I: c.i, K: c.k, Current: c.gen == t.gen}
+	if c.curr == nil {
+		return out
+	}
+	out.Node = -2
+	n := 0
+	var walk func(x *node[K, V]) bool
+	walk = func(x *node[K, V]) bool {
+		if x == c.curr {
+			out.Node = n
+			return true
+		}
+		n++
+		if !x.leaf() {
+			for i := 0; i <= int(x.n); i++ {
+				if x.children[i] != nil && walk(x.children[i]) {
+					return true
+				}
+			}
+		}
+		return false
+	}
+	walk(t.root)
+	return out
+}
+
+// VerifCursor describes the position of an iterator obtained from m.Iterate, or from m.Range / m.RangeReverse
+// with an unbounded far end (others are wrapped and report ok = false). Read-only.
+func (m Map[K, V]) VerifCursor(it iterator.Iterator[KVPair[K, V]]) (VerifCursor[K], bool) {
+	switch x := it.(type) {
+	case *forwardIterator[K, V]:
+		return verifCursorOf(m.t, &x.c), true
+	case *backwardIterator[K, V]:
+		return verifCursorOf(m.t, &x.c), true
+	}
+	return VerifCursor[K]{}, false
+}
